@@ -237,7 +237,7 @@ CLAIMED = {
             'receives more bytes than it sent. Anti-amplification with a symbolic MTU and attacker-chosen padding: a server hello is '
             'queued only for a hello of the full padded size, it is strictly smaller than that hello, and a connection that has not '
             'completed the handshake emits nothing else.',
-            'Trusted: as C10 (single-threaded driver, inert stand-ins, ideal crypto). Bounded decode work is C14. Bounds: one (thorough two) '
+            'Trusted: as C10 (single-threaded driver, inert stand-ins, ideal crypto). Bounded decode work is C14. Bounds: one (thorough: two, for the handshaking and the connected address) '
             'hostile datagram(s) per run with <= 5 arbitrary body bytes / 3 arbitrary hello-message bytes; 9 ticks. Outside: OS socket '
             'buffers, memory growth of the input queue under flooding, thread liveness as such.',
             'DESIGN.md §6 C11'),
